@@ -1,8 +1,10 @@
 package yqlib
 
 import (
+	"bufio"
 	"errors"
 	"io"
+	"strings"
 	"io/fs"
 	"os"
 	"time"
@@ -45,6 +47,8 @@ type c12State struct {
 	lastOp   string
 	dead     bool
 	fallback bool // the rename failed and the copy fallback opened the target for writing
+	noFaults bool              // front-matter harness: no injected failures
+	text     map[string]string // front-matter harness: real bytes of files (source text, what was written)
 }
 
 var c12 *c12State
@@ -76,6 +80,9 @@ func c12Step(op string) {
 }
 
 func c12Fail(op string) bool {
+	if c12.noFaults {
+		return false
+	}
 	return verifConcreteBool(verifBool("fail_" + op + "_" + verifItoa(int64(c12.step))))
 }
 
@@ -361,4 +368,52 @@ func VerifC12InPlace() {
 		verifAssert(t.mode == c12.oldMode, "C12/permission-bits-changed "+where)
 	}
 	verifCover("C12/end")
+}
+
+// ---- --front-matter: the split of the input file and the appendix of the printer ----
+
+// verifFMReader: the bytes of an opened file (front_matter.go wraps the *os.File in a bufio.Reader)
+func verifFMReader(f *os.File) io.Reader { return strings.NewReader(c12.text[c12.handles[f]]) }
+
+func verifFileWriteString(f *os.File, s string) (int, error) {
+	c12Step("writestring")
+	name := c12.handles[f]
+	c12.text[name] = c12.text[name] + s
+	return len(s), nil
+}
+
+// VerifC12FrontMatter: for every file text, Split() divides it into the YAML front matter (written to the temporary
+// file) and the rest (left in the content reader) without losing, duplicating or reordering a byte; the rest is
+// empty or starts at a `---` line; and the printer appends exactly that rest after the results.
+func VerifC12FrontMatter() {
+	c12 = &c12State{files: map[string]*c12File{}, handles: map[*os.File]string{}, noTrunc: map[*os.File]string{}, text: map[string]string{}, noFaults: true, sameFS: true}
+	text := verifStr("text", verifParam("fmlen", 6), "\n~")
+	c12.files["t.md"] = &c12File{content: c12Old, mode: 0o644}
+	c12.text["t.md"] = text
+	h := NewFrontMatterHandler("t.md")
+	err := h.Split()
+	verifAssert(err == nil, "C12/front-matter-split-error")
+	if err != nil {
+		return
+	}
+	front := c12.text[h.GetYamlFrontMatterFilename()]
+	// what --front-matter=process does next: the results are printed, then the content reader is appended
+	var sb strings.Builder
+	var events []string
+	printer := NewPrinter(&c10Encoder{events: &events}, NewSinglePrinterWriter(bufio.NewWriter(c17Writer{&sb})))
+	printer.SetAppendix(h.GetContentReader())
+	doc := vDoc(vMap(vStr("k"), vStr("v")))
+	perr := printer.PrintResults(doc.AsList())
+	verifAssert(perr == nil, "C12/front-matter-print-error")
+	if perr != nil {
+		return
+	}
+	rest := sb.String()
+	verifObserve("front", front)
+	verifObserve("rest", rest)
+	verifAssert(verifEqStr(front+rest, text), "C12/front-matter-split-loses-or-duplicates-bytes")
+	if len(rest) >= 3 {
+		verifAssert(verifConcreteBool(rest[0] == '-' && rest[1] == '-' && rest[2] == '-'), "C12/front-matter-rest-does-not-start-at-a-separator")
+	}
+	verifCover("C12/frontmatter/end")
 }
